@@ -36,6 +36,7 @@ PLAN = {
     "C19": dict(quick=160, thorough=6000, timeout=300),
     "C29": dict(quick=10000, thorough=400000, timeout=90),
     "C18": dict(quick=1600, thorough=40000, timeout=240), "C20": dict(quick=400, thorough=20000, timeout=240),
+    "C21": dict(quick=320, thorough=30000, timeout=300),
     "C22": dict(quick=6000, thorough=300000, timeout=90),
     "C11": dict(quick=1500, thorough=60000, timeout=90),
     "C01": dict(quick=480, thorough=30000, timeout=180), "C02": dict(quick=480, thorough=30000, timeout=180),
